@@ -23,6 +23,8 @@ const VOCAB: &[&str] = &[
     "crèmex", "drelb’s",
     // lower-case forms of capitalised curated entries: flagged until the user adds them
     "github", "linux", "monday", "iphone",
+    // entries the curated dictionary lists for another dialect than the default (American) one
+    "colour", "instil",
 ];
 
 /// user dictionary files as a user (or another tool) may have left them on disk
